@@ -277,6 +277,7 @@ func TestC03(t *testing.T) {
 			missing := car != "var" && car != "tag" && car != "rm" && st.zero && rapid.Bool().Draw(t, "missing")
 			c := c03Case(ty, st, rs, car, missing)
 			c.ViaPtr = rapid.IntRange(0, 4).Draw(t, "viaPtr") == 0
+			c.LateRule = rapid.IntRange(0, 5).Draw(t, "lateRule") == 0
 			if car == "tag" && rapid.IntRange(0, 2).Draw(t, "decoy") == 0 {
 				// an earlier call on the same struct type whose per-call rule differs in required-ness
 				c.Decoy = rapid.SampledFrom([]string{"required", "required|decoy", "to=1~3", "ge=2|decoy", "phone"}).Draw(t, "decoyRule")
